@@ -147,6 +147,9 @@ func (i *interpreter) globalAddr(g *ssa.Global) *value {
 		}
 	}
 	cell := zero(mustDeref(g.Type()))
+	if v, ok := i.embeddedContent(g); ok {
+		cell = v
+	}
 	a := &cell
 	i.globals[g] = a
 	return a
